@@ -405,12 +405,12 @@ func init() {
 			}
 			// several readers per node that re-read delivered blocks through the
 			// node's block API as fast as they can while consensus goes on
-			hammers := 1
+			hammers := 4
 			if tier == "thorough" {
-				hammers = 6
+				hammers = 12
 			}
 			for i := 0; i < hammers; i++ {
-				cs = append(cs, CaseSpec{Kind: "soak", P: map[string]int64{"n": int64(3 + i%3), "txs": 400, "pace_us": 2000, "readers": 3, "hammer": 1}})
+				cs = append(cs, CaseSpec{Kind: "soak", P: map[string]int64{"n": int64(3 + i%3), "txs": 400, "pace_us": 2000, "readers": 4, "hammer": 1}})
 			}
 			return cs
 		},
